@@ -1,4 +1,4 @@
-(* C28 driver.  case: "<mode> <mask> <delay> <prog>,..." (see harness/h_c28.cpp); impl result:
+(* C28 driver.  case: "<mode> <mask> <delay> <prog>,... [<dir> <vals>,...]" (see harness/h_c28.cpp); impl result:
    "rets=.. stop=.. file=..".  The model is run under a schedule built (in Coq: sched_for) from what the file
    determines: the order in which the producers' lines entered the queue.  In every mode the modelled logger thread
    writes everything it can reach before stop() returns, regardless of what the implementation did (with the
@@ -15,6 +15,13 @@ let parse_progs (s : string) : (z * z list) list list =
       if ch >= 'a' then (z_of_int (Char.code ch - 97), [])
       else (z_of_int (Char.code ch - 48), ztext (Printf.sprintf "%d.%d" i k)))) (split_on ',' s)
 
+let parse_vals (s : string) : string array =
+  Array.of_list (List.map (fun v -> if v = "-" then "" else v) (split_on ',' s))
+
+(* a file line behind the sequence field: blanks were replaced by '/' *)
+let rest_of_token (t : string) : string = String.map (fun c -> if c = '/' then ' ' else c) t
+let token_of_rest (t : string) : string = String.map (fun c -> if c = ' ' then '/' else c) t
+
 let field (name : string) (impl : string) : string option =
   let pre = name ^ "=" in
   List.fold_left (fun acc w ->
@@ -24,7 +31,7 @@ let field (name : string) (impl : string) : string option =
 let show_obs (o : obs) : string =
   let rets = String.concat "," (List.map (fun r -> if r = [] then "-" else String.concat "" (List.map b01 r)) o.o_rets) in
   let file = if o.o_file = [] then "-" else
-    String.concat "," (List.map (fun (s, t) -> Printf.sprintf "%07d/%s" (int_of_nat s) (string_of_ztext t)) o.o_file) in
+    String.concat "," (List.map (fun (s, t) -> Printf.sprintf "%07d/%s" (int_of_nat s) (token_of_rest (string_of_ztext t))) o.o_file) in
   Printf.sprintf "rets=%s stop=%s file=%s" rets (b01 o.o_stopped) file
 
 (* implementation observables; None if the result is not of the expected shape *)
@@ -39,7 +46,7 @@ let impl_obs (impl : string) : obs option =
                    | Some p when p = 7 ->
                        let sq = String.sub tok 0 p in
                        String.iter (fun c -> if c < '0' || c > '9' then failwith "seq") sq;
-                       (nat_of_int (int_of_string sq), ztext (String.sub tok (p + 1) (String.length tok - p - 1)))
+                       (nat_of_int (int_of_string sq), ztext (rest_of_token (String.sub tok (p + 1) (String.length tok - p - 1))))
                    | _ -> failwith "tok") (split_on ',' f) in
       Some { o_rets = rets; o_file = file; o_stopped = (st = "1") }
     with _ -> None)
@@ -49,7 +56,7 @@ let impl_obs (impl : string) : obs option =
 let order_of (f : string) (np : int) : nat list =
   if f = "-" then [] else
   List.filter_map (fun tok ->
-    match String.index_opt tok '/' with
+    match String.rindex_opt tok '/' with
     | None -> None
     | Some p ->
       let t = String.sub tok (p + 1) (String.length tok - p - 1) in
@@ -59,13 +66,20 @@ let order_of (f : string) (np : int) : nat list =
                         if i >= 0 && i < np then Some (nat_of_int i) else None with _ -> None))) (split_on ',' f)
 
 let () = run_protocol (fun case impl ->
-  match words case with
-  | [_mode; mask; _delay; progs] ->
-    let m = z_of_string mask and ps = parse_progs progs in
+  let go mask progs dir vals =
+    let m = z_of_string mask and ps = parse_progs progs and d = (dir = "1") and va = parse_vals vals in
+    let vf (i : nat) (k : nat) : z =
+      let i = int_of_nat i and k = int_of_nat k in
+      if i < Array.length va && k < String.length va.(i) then
+        (match va.(i).[k] with '0' -> z_of_int 0 | '1' -> z_of_int 1 | _ -> z_of_int 4096)
+      else z_of_int 0 in
     let f = (match field "file" impl with Some f -> f | None -> "-") in
     let order = order_of f (List.length ps) in
-    let o = run_case m order ps in
-    let om = c28_ok m ps o in
-    let oi = (match impl_obs impl with Some io -> c28_ok m ps io | None -> false) in
-    (show_obs o, oi, om)
+    let o = run_case m d vf order ps in
+    let om = c28_ok d m vf ps o in
+    let oi = (match impl_obs impl with Some io -> c28_ok d m vf ps io | None -> false) in
+    (show_obs o, oi, om) in
+  match words case with
+  | [_mode; mask; _delay; progs] -> go mask progs "0" "-"
+  | [_mode; mask; _delay; progs; dir; vals] -> go mask progs dir vals
   | _ -> ("BAD-CASE", false, false))
